@@ -151,6 +151,10 @@ func Expand(counter string) []string {
 	if hasBuckets {
 		buckets := strings.Split(strings.TrimSuffix(rest, "}"), ",")
 		for _, b := range buckets {
+			if b == "" {
+				// "name:{}" and "name:{a,}" list no counter called "name:".
+				continue
+			}
 			counters = append(counters, prefix+b)
 		}
 	} else {
